@@ -239,6 +239,25 @@ fn check(c: &Case, obs: &mut Obs) -> Result<(), Fail> {
     Ok(())
 }
 
+pub fn byron_spec() -> impl Strategy<Value = crate::byron::BSpec> {
+    use crate::byron::{BIn, BSpec};
+    let amount = || prop_oneof![6 => 1_000_000u64..50_000_000_000, 1 => Just(u64::MAX), 1 => Just(u64::MAX / 2 + 1), 1 => 0u64..3];
+    (
+        prop::collection::vec((0u8..4, amount(), prop_oneof![6 => Just(0u8), 2 => Just(1u8), 1 => Just(2u8), 1 => Just(3u8)], 0u8..5, 0u8..3), 1..4),
+        prop::collection::vec((0u8..4, prop_oneof![5 => 1_000_000u64..3_000_000, 1 => Just(0u64), 1 => Just(u64::MAX)]), 1..4),
+        prop_oneof![4 => 0i64..100_000, 2 => -200_000i64..0, 1 => any::<i64>()],
+        prop_oneof![5 => Just(0i64), 1 => 1i64..1_000_000, 1 => Just(i64::MAX)],
+        prop_oneof![5 => Just(0u8), 1 => 1u8..5],
+    )
+        .prop_map(|(ins, outputs, fee_delta, change_delta, witness_edit)| BSpec {
+            inputs: ins.into_iter().map(|(key, amount, kind, txid, idx)| BIn { key, amount, kind, txid, idx }).collect(),
+            outputs,
+            fee_delta,
+            change_delta,
+            witness_edit,
+        })
+}
+
 pub fn run(s: &Session) {
     s.set_rule("TxForge transactions of every post-Byron era under well-formedness-preserving value/shape mutations of the \
         transaction (integers -> boundary values and negatives, byte strings -> other lengths, arrays/maps emptied / duplicated / \
@@ -265,7 +284,37 @@ pub fn run(s: &Session) {
         },
         check,
     );
+    s.forall(
+        "byron-transactions",
+        s.pick(100_000, 2_000_000),
+        byron_spec,
+        |b, obs| {
+            let f = match crate::byron::forge(b) {
+                Ok(f) => f,
+                Err(_) => {
+                    obs.discard();
+                    return Ok(());
+                }
+            };
+            match crate::byron::validate(&f) {
+                None => {
+                    obs.class("byron:undecodable");
+                    obs.discard();
+                }
+                Some(Ok(())) => {
+                    obs.class("byron:accepted");
+                    obs.nontrivial();
+                }
+                Some(Err(_)) => {
+                    obs.class("byron:rejected");
+                    obs.nontrivial();
+                }
+            }
+            Ok(())
+        },
+    );
     if !s.replaying() {
+        s.health(s.class_count("byron:accepted") > 0 && s.class_count("byron:rejected") > 0, "byron lacks accepted or rejected cases");
         for e in forge::EraK::all() {
             s.health(s.class_count(&format!("{}:rejected", e.name())) > 0 && s.class_count(&format!("{}:accepted", e.name())) > 0, &format!("era {} lacks accepted or rejected cases", e.name()));
         }
